@@ -96,14 +96,30 @@ pub struct UriCase {
     pub query: Option<&'static str>,
 }
 
+/// thorough tier: a second, larger product over further shapes (indices total() .. total() + total_ext())
+pub const USERINFOS_EXT: [Option<&str>; 8] = [None, Some("user"), Some("u:"), Some("u:p:q"), Some("u;v=1:p"), Some("a@b@c:d"), Some("%00:%ff"), Some("printer.example.com:631")];
+pub const HOSTS_EXT: [&str; 8] = ["localhost", "a-b.c-d.example", "xn--bcher-kva.example", "127.0.0.1", "[::ffff:1.2.3.4]", "h.", "0", "ipp"];
+pub const PORTS_EXT: [Option<u16>; 6] = [None, Some(631), Some(8080), Some(9100), Some(10), Some(6310)];
+pub const PATHS_EXT: [&str; 10] = ["/ipp/print", "/a/b/c/d/e/f", "/%2F", "/a%3Fb", "/printers/x.y~z", "/*", "/a:b", "/a@b", "/a+b,c;d", "/ipp://h/p"];
+pub const QUERIES_EXT: [Option<&str>; 7] = [None, Some("a=b@c"), Some("x=%3F"), Some("a+b"), Some("?"), Some("a/b:c"), Some("waitjob=false&x")];
+
+pub fn radices_ext() -> [u64; 6] {
+    [SCHEMES.len() as u64, USERINFOS_EXT.len() as u64, HOSTS_EXT.len() as u64, PORTS_EXT.len() as u64, PATHS_EXT.len() as u64, QUERIES_EXT.len() as u64]
+}
+
+pub fn total_ext() -> u64 {
+    crate::explore::product(&radices_ext())
+}
+
 pub fn case(idx: u64) -> UriCase {
-    let t = crate::explore::unrank(idx, &radices());
+    let ext = idx >= total();
+    let t = if ext { crate::explore::unrank(idx - total(), &radices_ext()) } else { crate::explore::unrank(idx, &radices()) };
     let scheme = SCHEMES[t[0] as usize];
-    let userinfo = USERINFOS[t[1] as usize];
-    let host = HOSTS[t[2] as usize];
-    let port = PORTS[t[3] as usize];
-    let path = PATHS[t[4] as usize];
-    let query = QUERIES[t[5] as usize];
+    let (userinfo, host, port, path, query) = if ext {
+        (USERINFOS_EXT[t[1] as usize], HOSTS_EXT[t[2] as usize], PORTS_EXT[t[3] as usize], PATHS_EXT[t[4] as usize], QUERIES_EXT[t[5] as usize])
+    } else {
+        (USERINFOS[t[1] as usize], HOSTS[t[2] as usize], PORTS[t[3] as usize], PATHS[t[4] as usize], QUERIES[t[5] as usize])
+    };
     let mut s = format!("{}://", scheme);
     if let Some(u) = userinfo {
         s.push_str(u);
@@ -140,7 +156,7 @@ mod tests {
     #[test]
     fn split_roundtrip_on_product() {
         assert_eq!(total(), 62720);
-        for i in 0..total() {
+        for i in 0..(total() + total_ext()) {
             let c = case(i);
             let p = split(&c.text).unwrap();
             assert_eq!(p.scheme, c.scheme);
